@@ -116,7 +116,7 @@ type lifeConn struct {
 	state  string // open closed finished
 }
 
-const lifeWatchdog = 5 * time.Second
+const lifeWatchdog = 15 * time.Second
 
 func lifeRetName(err error) string {
 	switch {
